@@ -103,6 +103,15 @@ def gen_frame(rng, pk):
             rows[0][keys['duration']] = np.nan
     df = pd.DataFrame(rows)
     df = df.iloc[rng.permutation(len(df))]
+    if rng.random() < 0.25:
+        # a first row without an observable (a missed sample, a baseline
+        # record)
+        first = {keys['id']: labels[0], keys['time']: 0.0,
+                 keys['obs']: np.nan, keys['value']: np.nan}
+        if pk:
+            first[keys['dose']] = np.nan
+            first[keys['duration']] = np.nan
+        df = pd.concat([pd.DataFrame([first]), df])
     if rng.random() < 0.5:
         df.index = np.zeros(len(df), dtype=int)
     else:
@@ -274,6 +283,13 @@ def band_case(ctx, rng, idx):
                 x[:n], x[n:][::-1]):
             ctx.violation('band_geometry', 'band_times:' + pname,
                           {'x': x, 'times': times}, feats)
+            return
+        # the filled polygon runs along the upper limits in time order and
+        # back along the lower ones: only then is the shaded region the
+        # region between the limits
+        if np.any(np.diff(x[:n]) < 0):
+            ctx.violation('band_geometry', 'band_polygon_not_in_time_order:'
+                          + pname, {'x': x}, feats)
             return
         upper, lower = y[:n], y[n:][::-1]
         for j in range(n):
